@@ -645,6 +645,16 @@ impl World {
             let det = format!("node {n} restarted with last index {} but its stable storage ends at {}", o.last_index, d.last_index());
             return Err(self.violation("C06", "C06.restart_not_behind", n, det, "restart_log_mismatch".into()));
         }
+        // the loaded log is the durable log, entry by entry
+        if let Some(raw) = node.raw.as_ref() {
+            for e in &d.entries {
+                let got = raw.raft.raft_log.term(e.index).ok();
+                if got != Some(e.term) {
+                    let det = format!("node {n} restarted with term {:?} at index {} but its stable storage holds term {}", got, e.index, e.term);
+                    return Err(self.violation("C06", "C06.restart_not_behind", n, det, "restart_log_mismatch".into()));
+                }
+            }
+        }
         if let Some(mt) = self.ghost.max_term_released.get(&n) {
             if o.term < *mt {
                 let det = format!("node {n} restarted at term {} although it had released messages of term {}", o.term, mt);
